@@ -328,6 +328,9 @@ func (s *State) evalInternal(node any) object.Object { //nolint:funlen,gocognit,
 		if oerr != nil {
 			return *oerr
 		}
+		for i, e := range elements {
+			elements[i] = object.Value(e) // the value now, not a reference to an outer variable.
+		}
 		return object.NewArray(elements)
 	case *ast.MapLiteral:
 		return s.evalMapLiteral(node)
@@ -391,7 +394,7 @@ func (s *State) evalMapLiteral(node *ast.MapLiteral) object.Object {
 			return s.NewError("key " + key.Inspect() + " is not hashable")
 		}
 		value := s.Eval(valueNode)
-		result = result.Set(key, value)
+		result = result.Set(object.CopyRegister(key), object.CopyRegister(value))
 	}
 	return result
 }
@@ -840,6 +843,9 @@ func (s *State) extendFunctionEnv(
 		}
 	}
 	if fn.Variadic {
+		for i, e := range extra {
+			extra[i] = object.Value(e) // values, like the named parameters.
+		}
 		env.SetNoChecks("..", object.NewArray(extra), true)
 	}
 	// Recursion is handle specially in Get (defining "self" and the function name in the env)
